@@ -91,6 +91,7 @@ func vpHavoc(b []byte)
 func vpRank(b []byte) uint64
 func vpJoin()
 func vpYield()
+func vpSettle()
 func vpSameBacking(a, b []byte) bool
 `
 
